@@ -1097,6 +1097,9 @@ func (c *checker) floors() {
 	check(d["decode-check:ok"]+d["decode-check-skipped:merged-target-of-a-replay"] >= pairs, "the decoding of fewer configurations than judged pairs was checked")
 	check(d["decode-check:merged-target-of-several-vsys"] >= 3+cases/60,
 		fmt.Sprintf("a target merged from main, IPv6 and raw file with two or more vsys was checked only %d times in %d cases", d["decode-check:merged-target-of-several-vsys"], cases))
+	check(d["oracle:nothing-left-behind"]*10 >= (d["oracle:converged"]+d["oracle:empty-plan"])*8,
+		"'nothing unreferenced is left' judged for too few completed approves")
+	check(d["resume:nothing-left-behind"]*10 >= d["resume:converged"]*8, "'nothing unreferenced is left' judged for too few completed resumes")
 	check(d["oracle-skipped:no-second-plan"]*50 <= d["oracle:converged"]+50, fmt.Sprintf("%d second plans missing", d["oracle-skipped:no-second-plan"]))
 	check(d["oracle:reached-state-wellformed"]*10 >= pairs*9, "well-formedness of the reached state judged for too few pairs")
 	if cuts := d["resume:cuts"]; cuts > 0 {
